@@ -226,3 +226,54 @@ Section WrapRuns.
     - split; [exact S|split; [reflexivity|split; [reflexivity|split; [reflexivity|left; exact Ev]]]].
   Qed.
 End WrapRuns.
+
+(* ---- the translated expiry test (Gen.C16 go_CacheEntry_IsExpired, clock = parameter) ---- *)
+Lemma gen_is_expired now e :
+  go_CacheEntry_IsExpired now e =
+  expired_model (T_CacheEntry_stored e) (T_CacheEntry_ttl e) (T_CacheEntry_cutUntil e) now.
+Proof.
+  unfold go_CacheEntry_IsExpired, go_CacheEntry_remaining, expired_model, remaining_model.
+  destruct (Z.eqb_spec (T_CacheEntry_cutUntil e) 0) as [E|E]; simpl; [reflexivity|].
+  destruct (Z.ltb_spec (T_CacheEntry_cutUntil e - now) (T_CacheEntry_ttl e - (now - T_CacheEntry_stored e)))%Z;
+    f_equal; lia.
+Qed.
+(* time only runs out: an entry found expired stays expired *)
+Lemma expired_model_mono stored ttl cut t t' : (t <= t')%Z ->
+  expired_model stored ttl cut t = true -> expired_model stored ttl cut t' = true.
+Proof.
+  unfold expired_model, remaining_model. intros H. rewrite !Z.leb_le.
+  destruct (Z.eqb cut 0); lia.
+Qed.
+Lemma is_expired_mono e t t' : (t <= t')%Z ->
+  go_CacheEntry_IsExpired t e = true -> go_CacheEntry_IsExpired t' e = true.
+Proof. rewrite !gen_is_expired. apply expired_model_mono. Qed.
+
+Section WrapClock.
+  Variable mix : N -> N.
+  Variable sidx : nat -> N -> nat.
+  Variable eoff : N -> Z.
+  Variable rescan : bool.
+  Hypothesis sidx_lt : forall n k, 0 < n -> sidx n k < n.
+  Variable ent : N -> T_CacheEntry.       (* identity -> the entry (stored / ttl / cutUntil never change) *)
+  Variable tend : Z.                       (* an instant no call of the run reads the clock after *)
+
+  (* Wrapper programs whose clean-ups test expiry with the CODE's IsExpired at instants up to
+     [tend] are wrapper programs for the fixed predicate "expired at tend" — so the schedule
+     theorem holds with the translated predicate in the place of [expired]. *)
+  Theorem wrappers_linearize_clock m0 progs sched : SWF mix sidx m0 ->
+    (forall p c, In p progs -> In c p -> wshape c = true /\
+       forall k old, c = CCad k old -> exists t, (t <= tend)%Z /\ go_CacheEntry_IsExpired t (ent old) = true) ->
+    let ex := expired_at ent tend in
+    let r := run_log mix sidx eoff rescan (init m0 progs) sched in
+    let W := wview ex (sabs sidx m0) (snd r) in
+    legal (fun k => fresh ex (sabs sidx m0 k)) W = true /\
+    (forall k, fresh ex (sabs sidx (c_map (fst r)) k) = reg W k (fresh ex (sabs sidx m0 k))) /\
+    (forall l1 t k old l2, snd r = l1 ++ LCad t k old true :: l2 ->
+       go_CacheEntry_IsExpired tend (ent old) = true /\ reg l1 k (sabs sidx m0 k) = Some old).
+  Proof.
+    intros S H. apply (wrappers_linearize mix sidx eoff rescan (expired_at ent tend) sidx_lt m0 progs sched S).
+    intros p Hp. apply forallb_forall. intros c Hc. destruct (H p c Hp Hc) as [Sh Ex].
+    destruct c; simpl in Sh; try discriminate; simpl; auto.
+    destruct (Ex k old eq_refl) as [t [Ht Et]]. unfold expired_at. apply (is_expired_mono _ t tend Ht Et).
+  Qed.
+End WrapClock.
